@@ -85,9 +85,6 @@ Section P.
   (* a sorts before-or-equal b *)
   Definition kle (a b : dentry) : Prop := key_lt b a = false.
 
-  Lemma ple_refl p : ple K p p = true.
-  Proof. destruct (ple_total K KO p p); assumption. Qed.
-
   Lemma kle_iff a b :
     kle a b <-> d_dist a < d_dist b \/
                 (d_dist a = d_dist b /\ ple K (d_prob b) (d_prob a) = true).
@@ -100,8 +97,10 @@ Section P.
       apply Z.ltb_ge. lia.
   Qed.
 
-  Lemma kle_refl a : kle a a.
-  Proof. apply kle_iff. right. split; [reflexivity | apply ple_refl]. Qed.
+  Lemma kle_refl a : pvalid K (d_prob a) -> kle a a.
+  Proof.
+    intros H. apply kle_iff. right. split; [reflexivity | apply (ple_refl K KO); exact H].
+  Qed.
 
   Lemma kle_trans a b c : kle a b -> kle b c -> kle a c.
   Proof.
@@ -612,6 +611,7 @@ Section P.
       intros u y Hu Hy. apply heap_del_In in Hu. eapply Hminx; [apply Hu | exact Hy].
     - intros u y Hu Hh. destruct (Z.eq_dec u v) as [E|E].
       + subst u. rewrite Hx in Hu. inversion Hu; subst y. apply kle_refl.
+        apply (w_prob _ (we_num _ _ Hwx)).
       + assert (Hh' : ~ In u (s_heap K s)).
         { intros H. apply Hh. apply heap_del_In. split; assumption. }
         pose proof (I_fin_le s HI _ _ Hu Hh') as H1.
@@ -751,8 +751,7 @@ End P.
 Lemma ZK_ok pen : 0 <= pen -> keyops_ok (ZK pen).
 Proof.
   intros Hpen. constructor; cbn [ZK ple pmul pdist pone pzero pvalid kP].
-  - intros a b. destruct (Z.leb_spec a b); [left; reflexivity|].
-    right. apply Z.leb_le. lia.
+  - intros a _. apply Z.leb_refl.
   - intros a b c H1 H2. zb. apply Z.leb_le. lia.
   - lia.
   - intros p e Hp He. apply Z.div_pos; nia.
